@@ -1,3 +1,619 @@
 // Included into daemon/src/event/mod.rs as `mod verif_harness` (guard: cfg osrg_rustybgp_verif).
+//
+// End-to-end conformance harnesses that drive the REAL session code (accept_connection,
+// PeerSession::run / session_loop / apply_disconnect, process_effects, the GR timer tasks, the real
+// TableManager) with a scripted BGP speaker on a loopback socket, and print the projection of the
+// real state after every model step.
+//
+//   gr_replay   C10   behaviours of spec/GrHelper/GrHelper.tla
+//
+// Input (env VERIF_IN) / output (env VERIF_OUT) are line based; see each test.
+
 #[allow(unused_imports)]
 use super::*;
+use std::fmt::Write as _;
+use std::io::Write as _;
+use tokio::io::{AsyncReadExt, AsyncWriteExt};
+
+const WAIT_MS: u64 = 4000;
+
+pub(crate) fn mk_global() -> GlobalHandle {
+    let (tx, _rx) = mpsc::unbounded_channel();
+    let (bfd_tx, _bfd_rx) = mpsc::unbounded_channel();
+    let mut g = Global::new(tx, bfd_tx);
+    g.asn = 65001;
+    g.router_id = Ipv4Addr::new(1, 0, 0, 1);
+    Arc::new(tokio::sync::RwLock::new(g))
+}
+
+pub(crate) fn base_params(remote_addr: IpAddr) -> PeerParams {
+    PeerParams {
+        remote_addr,
+        remote_port: Global::BGP_PORT,
+        expected_remote_asn: 0,
+        local_asn: 0,
+        passive: true,
+        rs_client: false,
+        route_reflector: RouteReflectorConfig::default(),
+        delete_on_disconnected: false,
+        admin_down: false,
+        state: SessionState::Idle,
+        holdtime: 90,
+        connect_retry_time: 3600,
+        multihop_ttl: None,
+        ttl_security: None,
+        password: None,
+        families: FnvHashMap::default(),
+        send_max: FnvHashMap::default(),
+        prefix_limits: FnvHashMap::default(),
+        graceful_restart: None,
+        llgr: None,
+        bfd_config: None,
+        neighbor_interface: None,
+        bind_interface: None,
+        export_policy: None,
+    }
+}
+
+/// Connected loopback pair; the client side is bound to `src` (a 127.x.y.z address).
+pub(crate) async fn pair_from(src: Ipv4Addr) -> (TcpStream, TcpStream) {
+    let listener = tokio::net::TcpListener::bind("127.0.0.1:0").await.unwrap();
+    let addr = listener.local_addr().unwrap();
+    let sock = tokio::net::TcpSocket::new_v4().unwrap();
+    sock.bind(SocketAddr::new(IpAddr::V4(src), 0)).unwrap();
+    let (client, server) = tokio::join!(sock.connect(addr), listener.accept());
+    (client.unwrap(), server.unwrap().0)
+}
+
+/// The scripted remote BGP speaker.
+pub(crate) struct Remote {
+    pub(crate) stream: Option<TcpStream>,
+    pub(crate) codec: bgp::PeerCodec,
+    pub(crate) rxbuf: bytes::BytesMut,
+    pub(crate) daemon_open: Option<bgp::Open>,
+    pub(crate) asn: u32,
+}
+
+impl Remote {
+    pub(crate) fn new(stream: TcpStream, asn: u32) -> Self {
+        Remote {
+            stream: Some(stream),
+            codec: bgp::PeerCodec::new(),
+            rxbuf: bytes::BytesMut::with_capacity(1 << 16),
+            daemon_open: None,
+            asn,
+        }
+    }
+
+    pub(crate) async fn send(&mut self, msg: &bgp::Message) -> bool {
+        let mut buf = bytes::BytesMut::with_capacity(8192);
+        if self.codec.encode_to(msg, &mut buf).is_err() {
+            return false;
+        }
+        match self.stream.as_mut() {
+            Some(s) => s.write_all(&buf).await.is_ok(),
+            None => false,
+        }
+    }
+
+    pub(crate) async fn send_raw(&mut self, bytes: &[u8]) -> bool {
+        match self.stream.as_mut() {
+            Some(s) => s.write_all(bytes).await.is_ok(),
+            None => false,
+        }
+    }
+
+    /// Next message from the daemon, or None on EOF / timeout / parse error.
+    pub(crate) async fn recv(&mut self, ms: u64) -> Option<bgp::Message> {
+        let deadline = tokio::time::Instant::now() + Duration::from_millis(ms);
+        loop {
+            match self.codec.try_parse(&mut self.rxbuf) {
+                Ok(Some(parsed)) => {
+                    if let Ok(mut it) = bgp::validate_message(parsed, true) {
+                        if let Some(m) = it.next() {
+                            return Some(m);
+                        }
+                    }
+                    continue;
+                }
+                Ok(None) => {}
+                Err(_) => return None,
+            }
+            let s = self.stream.as_mut()?;
+            let left = deadline.checked_duration_since(tokio::time::Instant::now())?;
+            match tokio::time::timeout(left, s.read_buf(&mut self.rxbuf)).await {
+                Ok(Ok(0)) | Ok(Err(_)) | Err(_) => return None,
+                Ok(Ok(_)) => {}
+            }
+        }
+    }
+
+    /// Read until the daemon's OPEN has been seen.
+    pub(crate) async fn read_open(&mut self) -> bool {
+        for _ in 0..4 {
+            match self.recv(WAIT_MS).await {
+                Some(bgp::Message::Open(o)) => {
+                    self.daemon_open = Some(o);
+                    return true;
+                }
+                Some(_) => {}
+                None => return false,
+            }
+        }
+        false
+    }
+
+    /// Send our OPEN + KEEPALIVE; negotiate our codec against the daemon's capabilities.
+    pub(crate) async fn open_exchange(&mut self, rid: u32, hold: u16, caps: Vec<packet::Capability>) -> bool {
+        let open = bgp::Message::Open(bgp::Open {
+            as_number: self.asn,
+            holdtime: HoldTime::new(hold).unwrap(),
+            router_id: rid,
+            capability: caps.clone(),
+        });
+        if !self.send(&open).await {
+            return false;
+        }
+        // daemon answers with KEEPALIVE
+        let mut got_ka = false;
+        for _ in 0..4 {
+            match self.recv(WAIT_MS).await {
+                Some(bgp::Message::Keepalive) => {
+                    got_ka = true;
+                    break;
+                }
+                Some(bgp::Message::Open(o)) => self.daemon_open = Some(o),
+                Some(_) => {}
+                None => break,
+            }
+        }
+        if !got_ka {
+            return false;
+        }
+        if let Some(o) = &self.daemon_open {
+            self.codec = bgp::PeerCodec::negotiate(&caps, &o.capability);
+        }
+        self.send(&bgp::Message::Keepalive).await
+    }
+
+    pub(crate) fn close(&mut self) {
+        self.stream = None;
+    }
+}
+
+pub(crate) async fn wait_until<F: FnMut() -> bool>(mut f: F, ms: u64) -> bool {
+    let deadline = std::time::Instant::now() + Duration::from_millis(ms);
+    loop {
+        if f() {
+            return true;
+        }
+        if std::time::Instant::now() > deadline {
+            return false;
+        }
+        tokio::time::sleep(Duration::from_millis(2)).await;
+    }
+}
+
+pub(crate) async fn settle() {
+    for _ in 0..20 {
+        tokio::task::yield_now().await;
+    }
+    tokio::time::sleep(Duration::from_millis(3)).await;
+    for _ in 0..20 {
+        tokio::task::yield_now().await;
+    }
+}
+
+fn fam_of(s: &str) -> Family {
+    match s {
+        "v4" => Family::IPV4,
+        "v6" => Family::IPV6,
+        x => panic!("harness: family {x}"),
+    }
+}
+
+fn fam_name(f: Family) -> &'static str {
+    if f == Family::IPV4 {
+        "v4"
+    } else if f == Family::IPV6 {
+        "v6"
+    } else {
+        "?"
+    }
+}
+
+fn fams_of(s: &str) -> Vec<Family> {
+    if s == "-" { vec![] } else { s.split(',').map(fam_of).collect() }
+}
+
+fn route_nlri(f: Family, x: u32) -> packet::Nlri {
+    if f == Family::IPV4 {
+        format!("10.1.{}.0/24", x).parse().unwrap()
+    } else {
+        format!("2001:db8:{:x}::/48", x).parse().unwrap()
+    }
+}
+
+fn route_id(n: &packet::Nlri) -> u32 {
+    match n {
+        packet::Nlri::V4(p) => p.addr.octets()[2] as u32,
+        packet::Nlri::V6(p) => p.addr.segments()[2] as u32,
+        _ => 0,
+    }
+}
+
+fn reach_msg(f: Family, x: u32, asn: u32, nollgr: bool) -> bgp::Message {
+    let mut attrs = vec![
+        packet::Attribute::new_with_value(packet::Attribute::ORIGIN, 0).unwrap(),
+        packet::Attribute::empty_as_path().as_path_prepend(asn),
+    ];
+    if nollgr {
+        attrs.push(
+            packet::Attribute::new_with_bin(packet::Attribute::COMMUNITY, vec![0xff, 0xff, 0x00, 0x07]).unwrap(),
+        );
+    }
+    let nexthop = if f == Family::IPV4 {
+        bgp::Nexthop::V4(Ipv4Addr::new(127, 0, 0, 1))
+    } else {
+        bgp::Nexthop::V6("2001:db8::1".parse().unwrap())
+    };
+    bgp::Message::Update(bgp::Update::Reach {
+        family: f,
+        entries: vec![packet::PathNlri { path_id: 0, nlri: route_nlri(f, x) }],
+        nexthop: Some(nexthop),
+        attr: Arc::new(attrs),
+    })
+}
+
+fn unreach_msg(f: Family, x: u32) -> bgp::Message {
+    bgp::Message::Update(bgp::Update::Unreach {
+        family: f,
+        entries: vec![packet::PathNlri { path_id: 0, nlri: route_nlri(f, x) }],
+    })
+}
+
+struct GrWorld {
+    global: GlobalHandle,
+    tables: TableHandle,
+    addr: IpAddr,
+    remote: Option<Remote>,
+    task: Option<tokio::task::JoinHandle<()>>,
+    active_tx: mpsc::UnboundedSender<TcpStream>,
+    _active_rx: mpsc::UnboundedReceiver<TcpStream>,
+    sub: crate::table_manager::Subscription,
+    sess: &'static str,
+}
+
+async fn gr_world() -> GrWorld {
+    let global = mk_global();
+    let tables: TableHandle = Arc::new(TableManager::new(2));
+    let addr = IpAddr::V4(Ipv4Addr::new(127, 0, 0, 1));
+    let mut p = base_params(addr);
+    p.families.insert(Family::IPV4, 0);
+    p.families.insert(Family::IPV6, 0);
+    p.graceful_restart = Some(GrPeerConfig {
+        restart_time: 3600,
+        notification_enabled: true,
+        families: vec![Family::IPV4, Family::IPV6],
+    });
+    p.llgr = Some(LlgrPeerConfig { families: vec![(Family::IPV4, 72000), (Family::IPV6, 72000)] });
+    global.write().await.add_peer(p, None).unwrap();
+    let (active_tx, _active_rx) = mpsc::unbounded_channel();
+    let sub = tables.subscribe(false);
+    GrWorld { global, tables, addr, remote: None, task: None, active_tx, _active_rx, sub, sess: "down" }
+}
+
+impl GrWorld {
+    async fn ctx(&self) -> Arc<std::sync::Mutex<PeerContext>> {
+        Arc::clone(&self.global.read().await.peers.get(&self.addr).unwrap().context)
+    }
+
+    async fn join_task(&mut self) -> bool {
+        if let Some(t) = self.task.take() {
+            return tokio::time::timeout(Duration::from_millis(WAIT_MS), t).await.is_ok();
+        }
+        true
+    }
+
+    fn routes(&self, f: Family) -> Vec<(u32, bool, bool)> {
+        let mut v = Vec::new();
+        for d in self.tables.collect_paths(table::TableQuery::AdjIn(self.addr), f, vec![], true) {
+            for p in &d.paths {
+                v.push((route_id(&d.net), p.stale, p.source.is_llgr_stale()));
+            }
+        }
+        v.sort();
+        v
+    }
+
+    async fn project(&self) -> String {
+        let ctx = self.ctx().await;
+        let (gr, rt, lt) = {
+            let c = ctx.lock().unwrap();
+            let mut lt: Vec<&'static str> = c
+                .llgr_family_timers
+                .iter()
+                .filter(|(_, tx)| !tx.is_closed())
+                .map(|(f, _)| fam_name(*f))
+                .collect();
+            lt.sort();
+            (
+                crate::gr::verif_harness::proj_gr(&c.gr_state),
+                c.gr_restart_timer.as_ref().is_some_and(|t| !t.is_closed()),
+                lt,
+            )
+        };
+        let mut s = String::new();
+        write!(s, "{{\"gr\":{},\"rt\":{},\"lt\":[", gr, rt).unwrap();
+        s.push_str(&lt.iter().map(|x| format!("\"{}\"", x)).collect::<Vec<_>>().join(","));
+        write!(s, "],\"sess\":\"{}\",\"routes\":{{", self.sess).unwrap();
+        let mut parts = Vec::new();
+        for f in [Family::IPV4, Family::IPV6] {
+            let r = self.routes(f);
+            parts.push(format!(
+                "\"{}\":[{}]",
+                fam_name(f),
+                r.iter().map(|(x, st, ll)| format!("[{},{},{}]", x, st, ll)).collect::<Vec<_>>().join(",")
+            ));
+        }
+        s.push_str(&parts.join(","));
+        s.push_str("}}");
+        s
+    }
+
+    async fn wait_eor_event(&mut self) -> bool {
+        let deadline = tokio::time::Instant::now() + Duration::from_millis(WAIT_MS);
+        loop {
+            let left = match deadline.checked_duration_since(tokio::time::Instant::now()) {
+                Some(l) => l,
+                None => return false,
+            };
+            match tokio::time::timeout(left, self.sub.rx.recv()).await {
+                Ok(Some(crate::table_manager::BgpEvent::EndOfRib(_))) => return true,
+                Ok(Some(_)) => {}
+                _ => return false,
+            }
+        }
+    }
+
+    fn drain_events(&mut self) {
+        while self.sub.rx.try_recv().is_ok() {}
+    }
+
+    /// Returns "" or a note about a wait that timed out.
+    async fn apply(&mut self, tok: &[&str]) -> String {
+        let mut note = String::new();
+        match tok[0] {
+            "connect" => {
+                let (client, server) = pair_from(Ipv4Addr::new(127, 0, 0, 1)).await;
+                let sess = accept_connection(&self.global, &self.tables, server, crate::fsm::Role::Passive).await;
+                match sess {
+                    Some(s) => {
+                        let g = self.global.clone();
+                        let tx = self.active_tx.clone();
+                        self.task = Some(tokio::spawn(async move { s.run(g, tx).await }));
+                        let mut r = Remote::new(client, 65002);
+                        if !r.read_open().await {
+                            note.push_str("no OPEN from daemon;");
+                        }
+                        self.remote = Some(r);
+                        self.sess = "connecting";
+                    }
+                    None => note.push_str("accept_connection refused;"),
+                }
+            }
+            "fail" => {
+                if let Some(r) = self.remote.as_mut() {
+                    r.close();
+                }
+                self.remote = None;
+                if !self.join_task().await {
+                    note.push_str("session task did not end;");
+                }
+                self.sess = "down";
+            }
+            "establish" => {
+                let gr = fams_of(tok[1]);
+                let ll = fams_of(tok[2]);
+                let nbit = tok[3] == "1";
+                let mut caps = vec![
+                    packet::Capability::MultiProtocol(Family::IPV4),
+                    packet::Capability::MultiProtocol(Family::IPV6),
+                    packet::Capability::FourOctetAsNumber(65002),
+                ];
+                if !gr.is_empty() {
+                    caps.push(packet::Capability::GracefulRestart {
+                        flags: if nbit { 0x4 } else { 0 },
+                        restart_time: 3600,
+                        families: gr.iter().map(|f| (*f, 0)).collect(),
+                    });
+                }
+                if !ll.is_empty() {
+                    caps.push(packet::Capability::LongLivedGracefulRestart(
+                        ll.iter().map(|f| (*f, 0u8, 72000u32)).collect(),
+                    ));
+                }
+                self.drain_events();
+                let r = self.remote.as_mut().unwrap();
+                if !r.open_exchange(u32::from(Ipv4Addr::new(10, 0, 0, 2)), 90, caps).await {
+                    note.push_str("OPEN exchange failed;");
+                }
+                // the daemon's initial dump ends with one End-of-RIB per family
+                let mut eors = 0;
+                while eors < 2 {
+                    match r.recv(WAIT_MS).await {
+                        Some(bgp::Message::Update(bgp::Update::EndOfRib(_))) => eors += 1,
+                        Some(_) => {}
+                        None => {
+                            note.push_str("no End-of-RIB from daemon;");
+                            break;
+                        }
+                    }
+                }
+                self.sess = "up";
+            }
+            "announce" => {
+                let f = fam_of(tok[1]);
+                let x: u32 = tok[2].parse().unwrap();
+                let n = tok[3] == "1";
+                let r = self.remote.as_mut().unwrap();
+                r.send(&reach_msg(f, x, 65002, n)).await;
+                let tables = self.tables.clone();
+                let addr = self.addr;
+                let ok = wait_until(
+                    || {
+                        tables
+                            .collect_paths(table::TableQuery::AdjIn(addr), f, vec![], true)
+                            .iter()
+                            .any(|d| route_id(&d.net) == x && d.paths.iter().any(|p| !p.stale && !p.source.is_llgr_stale()
+                                && table::has_no_llgr_community(&p.attr) == n))
+                    },
+                    WAIT_MS,
+                )
+                .await;
+                if !ok {
+                    note.push_str("announced route did not appear;");
+                }
+            }
+            "withdraw" => {
+                let f = fam_of(tok[1]);
+                let x: u32 = tok[2].parse().unwrap();
+                let r = self.remote.as_mut().unwrap();
+                r.send(&unreach_msg(f, x)).await;
+                let tables = self.tables.clone();
+                let addr = self.addr;
+                let ok = wait_until(
+                    || {
+                        !tables
+                            .collect_paths(table::TableQuery::AdjIn(addr), f, vec![], true)
+                            .iter()
+                            .any(|d| route_id(&d.net) == x)
+                    },
+                    WAIT_MS,
+                )
+                .await;
+                if !ok {
+                    note.push_str("withdrawn route still present;");
+                }
+            }
+            "eor" => {
+                let f = fam_of(tok[1]);
+                self.drain_events();
+                let r = self.remote.as_mut().unwrap();
+                r.send(&bgp::Message::eor(f)).await;
+                if !self.wait_eor_event().await {
+                    note.push_str("End-of-RIB not observed;");
+                }
+                settle().await;
+            }
+            "drop" => {
+                let reason = tok[1];
+                match reason {
+                    "io" => {}
+                    "remote_cease" | "remote_hard_reset" | "remote_noncease" => {
+                        let n = match reason {
+                            "remote_cease" => rustybgp_packet::Notification::CeaseAdministrativeReset,
+                            "remote_hard_reset" => rustybgp_packet::Notification::CeaseHardReset,
+                            _ => rustybgp_packet::Notification::UpdateMalformedAttributeList,
+                        };
+                        let r = self.remote.as_mut().unwrap();
+                        r.send(&bgp::Message::Notification(n)).await;
+                    }
+                    "local_noncease" => {
+                        // UPDATE whose attribute length overruns the message: NLRI cannot be located
+                        let mut b = vec![0xffu8; 16];
+                        b.extend_from_slice(&[0, 25, 2, 0, 0, 0, 200, 0x40, 1]);
+                        let r = self.remote.as_mut().unwrap();
+                        r.send_raw(&b).await;
+                        // wait for the daemon's NOTIFICATION before closing
+                        let _ = r.recv(WAIT_MS).await;
+                    }
+                    "admin" => {
+                        let ctx = self.ctx().await;
+                        ctx.lock().unwrap().force_down(CloseReason::AdminShutdown, false);
+                        let r = self.remote.as_mut().unwrap();
+                        let _ = r.recv(WAIT_MS).await;
+                    }
+                    "admin_down_flag" => {
+                        self.global.write().await.peers.get_mut(&self.addr).unwrap().admin_down = true;
+                    }
+                    x => panic!("harness: reason {x}"),
+                }
+                if let Some(r) = self.remote.as_mut() {
+                    r.close();
+                }
+                self.remote = None;
+                if !self.join_task().await {
+                    note.push_str("session task did not end;");
+                }
+                if reason == "admin_down_flag" {
+                    self.global.write().await.peers.get_mut(&self.addr).unwrap().admin_down = false;
+                }
+                self.sess = "down";
+                settle().await;
+            }
+            "timer" => {
+                let ctx = self.ctx().await;
+                ctx.lock().unwrap().fire_gr_timer();
+                let c2 = ctx.clone();
+                wait_until(|| !matches!(crate::gr::verif_harness::gr_variant(&c2.lock().unwrap().gr_state), "PeerRestarting"), WAIT_MS).await;
+                settle().await;
+            }
+            "llgrtimer" => {
+                let f = fam_of(tok[1]);
+                let ctx = self.ctx().await;
+                let tx = ctx.lock().unwrap().llgr_family_timers.remove(&f);
+                if let Some(tx) = tx {
+                    let _ = tx.send(());
+                }
+                settle().await;
+                settle().await;
+            }
+            x => panic!("harness: op {x}"),
+        }
+        note
+    }
+}
+
+#[tokio::test]
+async fn gr_replay() {
+    let Ok(inp) = std::env::var("VERIF_IN") else {
+        return;
+    };
+    let outp = std::env::var("VERIF_OUT").expect("VERIF_OUT");
+    let text = std::fs::read_to_string(&inp).expect("read VERIF_IN");
+    let mut out = std::io::BufWriter::new(std::fs::File::create(&outp).expect("create VERIF_OUT"));
+    let mut w: Option<GrWorld> = None;
+    let mut seq = String::new();
+    let mut step = 0usize;
+    for line in text.lines() {
+        let tok: Vec<&str> = line.split_whitespace().collect();
+        if tok.is_empty() {
+            continue;
+        }
+        if tok[0] == "seq" {
+            if let Some(mut old) = w.take() {
+                if let Some(r) = old.remote.as_mut() {
+                    r.close();
+                }
+                old.remote = None;
+                let _ = old.join_task().await;
+            }
+            seq = tok[1].to_string();
+            step = 0;
+            w = Some(gr_world().await);
+            continue;
+        }
+        step += 1;
+        let world = w.as_mut().unwrap();
+        let note = world.apply(&tok).await;
+        let st = world.project().await;
+        writeln!(
+            out,
+            "{{\"seq\":\"{}\",\"step\":{},\"state\":{},\"note\":\"{}\"}}",
+            seq, step, st, note
+        )
+        .unwrap();
+    }
+    out.flush().unwrap();
+}
